@@ -115,6 +115,14 @@ var scenarios = []scenario{
 		o := run(&Op{Kind: "Pull", Name: "projects/p/subscriptions/s0", Max: 10})
 		return &Op{Kind: "StreamAckNack", AckIDs: mustIDs(o)}
 	}},
+	{"stream-ack-and-nack", func(e *Env, run func(*Op) *Obs) *Op {
+		// one client message on a stream carrying both acks and nacks: one transaction
+		baseSetup(run, false, false)
+		run(pub(3, ""))
+		o := run(&Op{Kind: "Pull", Name: "projects/p/subscriptions/s0", Max: 10})
+		ids := mustIDs(o)
+		return &Op{Kind: "StreamAckNack", AckIDs: ids[:1], Nacks: ids[1:]}
+	}},
 	{"pull-nonempty", func(e *Env, run func(*Op) *Obs) *Op {
 		baseSetup(run, false, false)
 		run(pub(3, ""))
